@@ -533,6 +533,87 @@ class _Normaliser(ast.NodeTransformer):
         return n
 
 
+def stored_param_aliases(prog: "Program", fi: "FunctionInfo") -> Dict[str, str]:
+    """for a constructor: {parameter: 'self.attr'} for every parameter that the constructor itself, or the base constructor it calls
+    with that parameter, stores unchanged as self.attr - and that neither rebinds.  After the store the two names denote one object."""
+    out: Dict[str, str] = {}
+    fn = fi.node
+    if fi.name != "__init__" or not fi.cls:
+        return out
+    rebound = {x.id for x in ast.walk(fn) if isinstance(x, ast.Name) and isinstance(x.ctx, (ast.Store, ast.Del))}
+    params = [a.arg for a in fn.args.args + fn.args.kwonlyargs if a.arg != "self"]
+
+    def direct(f: ast.FunctionDef) -> Dict[str, str]:
+        reb = {x.id for x in ast.walk(f) if isinstance(x, ast.Name) and isinstance(x.ctx, (ast.Store, ast.Del))}
+        ps = {a.arg for a in f.args.args + f.args.kwonlyargs}
+        d: Dict[str, str] = {}
+        stores: Dict[str, int] = {}
+        for s_ in ast.walk(f):
+            if isinstance(s_, ast.Attribute) and isinstance(s_.ctx, ast.Store) and isinstance(s_.value, ast.Name) and s_.value.id == "self":
+                stores[s_.attr] = stores.get(s_.attr, 0) + 1
+        for s_ in f.body:
+            if isinstance(s_, ast.Assign) and len(s_.targets) == 1 and isinstance(s_.targets[0], ast.Attribute) and isinstance(s_.targets[0].value, ast.Name) \
+                    and s_.targets[0].value.id == "self" and isinstance(s_.value, ast.Name) and s_.value.id in ps and s_.value.id not in reb and stores.get(s_.targets[0].attr) == 1:
+                d.setdefault(s_.value.id, "self." + s_.targets[0].attr)
+        return d
+
+    for p_, a_ in direct(fn).items():
+        out[p_] = a_
+    cq = f"{fi.module}.{fi.cls}"
+    for s_ in fn.body:
+        c = s_.value if isinstance(s_, ast.Expr) and isinstance(s_.value, ast.Call) else None
+        if c is None or not isinstance(c.func, ast.Attribute) or c.func.attr != "__init__":
+            continue
+        recv = c.func.value
+        args = list(c.args)
+        base_init = None
+        if isinstance(recv, ast.Call) and isinstance(recv.func, ast.Name) and recv.func.id == "super":
+            for b in prog.mro(cq)[1:] if cq in prog.classes else []:
+                if "__init__" in b.methods:
+                    base_init = b.methods["__init__"]
+                    break
+        elif isinstance(recv, ast.Name):
+            r = prog.resolve_name(fi.module, recv.id)
+            if r is not None and r[0] == "class" and "__init__" in prog.classes[r[1]].methods if r and r[0] == "class" and r[1] in prog.classes else False:
+                base_init = prog.classes[r[1]].methods["__init__"]
+                args = args[1:]  # Base.__init__(self, ...)
+        if base_init is None or any(isinstance(a, ast.Starred) for a in args) or any(k.arg is None for k in c.keywords):
+            continue
+        bps = [a.arg for a in base_init.node.args.args if a.arg != "self"]
+        bound = dict(zip(bps, args))
+        bound.update({k.arg: k.value for k in c.keywords})
+        bd = direct(base_init.node)
+        own_stores = {x.attr for x in ast.walk(fn) if isinstance(x, ast.Attribute) and isinstance(x.ctx, ast.Store) and isinstance(x.value, ast.Name) and x.value.id == "self"}
+        for q_, attr in bd.items():
+            v = bound.get(q_)
+            if isinstance(v, ast.Name) and v.id in params and v.id not in rebound and attr.split(".")[1] not in own_stores:
+                out.setdefault(v.id, attr)
+    return out
+
+
+def canonical_chain(prog: "Program", fi: "FunctionInfo", e: ast.expr, depth: int = 4) -> str:
+    """the text of an attribute chain with its root resolved: a local bound once to a name / chain is replaced by that, a constructor
+    parameter stored unchanged on the object (stored_param_aliases) by the attribute"""
+    txt = ast.unparse(e)
+    c = attr_chain(e) if isinstance(e, (ast.Attribute, ast.Name)) else None
+    if c is None:
+        return txt
+    stored = stored_param_aliases(prog, fi)
+    binds: Dict[str, list] = {}
+    for s_ in ast.walk(fi.node):
+        if isinstance(s_, ast.Assign) and len(s_.targets) == 1 and isinstance(s_.targets[0], ast.Name):
+            binds.setdefault(s_.targets[0].id, []).append(s_.value)
+    for _ in range(depth):
+        root, _, rest = c.partition(".")
+        if root in binds and len(binds[root]) == 1 and isinstance(binds[root][0], (ast.Name, ast.Attribute)) and attr_chain(binds[root][0]):
+            c = attr_chain(binds[root][0]) + ("." + rest if rest else "")
+        elif root in stored:
+            c = stored[root] + ("." + rest if rest else "")
+        else:
+            break
+    return c
+
+
 # parameter lists of the pygfunction correlations the package calls (pygfunction/pipes.py of the pinned environment, read there):
 # calls of them by keyword are read as the positional calls the rules were written against.  Part of the trusted base.
 EXTERNAL_SIGNATURES = {
